@@ -259,19 +259,53 @@ def feasible(pc):
     return s.check() != z3.unsat
 
 
-def _guarded_check(s, timeout_ms):
-    """z3's own timeout is not honoured in every phase; a watchdog interrupts the context after a grace period"""
-    import threading
+def _guarded_check(s, timeout_ms, ivars=None):
+    """z3's own timeout (and ctx.interrupt) is not honoured in every phase of a quantified query, so the check runs in a
+    forked child that is killed after a grace period.  Returns (result string, model values of `ivars` or None, note)."""
+    import json
+    import select
+    import signal
 
-    tm = threading.Timer(timeout_ms / 1000.0 * 1.25 + 2.0, s.ctx.interrupt)
-    tm.daemon = True
-    tm.start()
+    rfd, wfd = os.pipe()
+    pid = os.fork()
+    if pid == 0:
+        try:
+            os.close(rfd)
+            try:
+                res = s.check()
+                payload = {"res": str(res)}
+                if res == z3.sat and ivars:
+                    m = s.model()
+                    payload["model"] = {p: str(m.eval(v, model_completion=True)) for p, v in ivars.items()}
+                if res == z3.unknown:
+                    payload["why"] = s.reason_unknown()
+            except BaseException as e:  # noqa
+                payload = {"res": "unknown", "why": f"{type(e).__name__}: {e}"}
+            os.write(wfd, json.dumps(payload).encode())
+        finally:
+            os._exit(0)
+    os.close(wfd)
     try:
-        return s.check()
-    except z3.Z3Exception:
-        return z3.unknown
+        ready, _, _ = select.select([rfd], [], [], timeout_ms / 1000.0 * 1.25 + 2.0)
+        if not ready:
+            os.kill(pid, signal.SIGKILL)
+            return "unknown", None, "hard timeout (solver killed)"
+        data = b""
+        while True:
+            chunk = os.read(rfd, 65536)
+            if not chunk:
+                break
+            data += chunk
+        if not data:
+            return "unknown", None, "solver process died"
+        payload = json.loads(data.decode())
+        return payload["res"], payload.get("model"), payload.get("why", "")
     finally:
-        tm.cancel()
+        os.close(rfd)
+        try:
+            os.waitpid(pid, 0)
+        except ChildProcessError:
+            pass
 
 
 def _conjuncts(g):
@@ -283,8 +317,9 @@ def _conjuncts(g):
     return [g]
 
 
-def solve_vc(vc, axioms, timeout_ms, use_cvc5=False):
-    """unsat for every conjunct of the goal => 'unsat'.  Otherwise the first undecided conjunct is reported."""
+def solve_vc(vc, axioms, timeout_ms, use_cvc5=False, ivars=None):
+    """unsat for every conjunct of the goal => 'unsat'.  Otherwise the first undecided conjunct is reported.
+    Returns (result, model values {param: int} or None, seconds, backend, detail)."""
     t0 = time.time()
     g = vc.goal if isinstance(vc.goal, z3.ExprRef) else z3.BoolVal(bool(vc.goal))
     backend = "z3"
@@ -296,13 +331,17 @@ def solve_vc(vc, axioms, timeout_ms, use_cvc5=False):
         for h in vc.hyps:
             s.add(h if isinstance(h, z3.ExprRef) else z3.BoolVal(bool(h)))
         s.add(z3.Not(cj))
-        r = _guarded_check(s, timeout_ms)
-        if r == z3.unsat:
+        r, model, why = _guarded_check(s, timeout_ms, ivars)
+        if r == "unsat":
             continue
         where = f"conjunct {i}: {str(cj)[:160]}"
-        if r == z3.sat:
-            return "sat", s.model(), time.time() - t0, backend, where
-        detail = f"z3: unknown ({s.reason_unknown()}) on {where}"
+        if r == "sat":
+            try:
+                model = {p: int(v) for p, v in (model or {}).items()}
+            except ValueError:
+                model = None
+            return "sat", model, time.time() - t0, backend, where
+        detail = f"z3: unknown ({why}) on {where}"
         if use_cvc5 and os.path.exists("/usr/bin/cvc5"):
             r2 = cvc5_check(s, max(2000, timeout_ms // 2))
             detail += f"; cvc5: {r2}"
@@ -442,7 +481,7 @@ def verify_function(spec, key, cfg, tier, seed, root=None, sid=None, differentia
         for vc in vcs:
             r0 = time.time()
             try:
-                res, model, ss, backend, detail = solve_vc(vc, axioms, timeout, use_cvc5=True)
+                res, model, ss, backend, detail = solve_vc(vc, axioms, timeout, use_cvc5=True, ivars=ivars)
             except Exception as e:
                 R(vc.name, verdict="error", detail=f"{type(e).__name__}: {e}", source=pin)
                 continue
@@ -454,7 +493,7 @@ def verify_function(spec, key, cfg, tier, seed, root=None, sid=None, differentia
                 decided = False
                 if res == "sat" and model is not None:
                     try:
-                        vals = {p: model.eval(v, model_completion=True).as_long() for p, v in ivars.items()}
+                        vals = dict(model)
                         inp = concretise(inputs, vals)
                         f = native_contract(C, src, inp)
                         if f:
